@@ -129,7 +129,11 @@ let check _ln line =
     let model = List.filter_map str_of_obs (List.filter (fun o -> not (internal_model o)) labels) in
     let impl = List.filter (fun s -> s <> "" && s.[0] <> 'D' && not (internal_impl s)) (List.map norm (String.split_on_char ';' evs)) in
     if not (ok_C09 labels) then Some (norm hd ^ ": ok_C09 rejects the model's own labels")
-    else if model <> impl then
+    else if (let is_t s = String.length s > 0 && s.[0] = 'T' in
+             (* T g is where the PEER noticed the end of generation g, not the instant of the
+                library's teardown: its position relative to the other events is not compared *)
+             List.filter (fun s -> not (is_t s)) model <> List.filter (fun s -> not (is_t s)) impl
+             || List.sort compare (List.filter is_t model) <> List.sort compare (List.filter is_t impl)) then
       Some (Printf.sprintf "%s: model=[%s] impl=[%s]" (norm hd) (String.concat " ; " model) (String.concat " ; " impl))
     else None
   | _ -> Some "unparsable case line"
